@@ -114,6 +114,9 @@ func OracleC01(run *common.Run, id string, res *Result) int {
 		if got.MediaType != want.MediaType || got.Digest != want.Digest || got.Size != want.Size {
 			fail("returned-root", fmt.Sprintf("Copy returned %s %s, expected node %d (%s %s)", got.MediaType, got.Digest, res.Root2, want.MediaType, want.Digest))
 		}
+		if res.ExtraTag && !(c.PreTag >= 0 && false) {
+			fail("extra-tag", fmt.Sprintf("the source reference %q also resolves in the destination although the destination reference is %q", c.SrcRef, c.DstRef))
+		}
 		if res.TagNode != res.Root2 {
 			sig := "tag-wrong"
 			// known finding: a non-manifest root that was mounted (OnMounted is not wrapped by prepareCopy)
@@ -497,8 +500,21 @@ func Drive(run *common.Run, prop string, b Budget) {
 		run.Extra["max_src_inflight_seen"] = maxInt(run.Extra["max_src_inflight_seen"], res.SrcMax)
 		run.Extra["max_dst_inflight_seen"] = maxInt(run.Extra["max_dst_inflight_seen"], res.DstMax)
 		if res.Hang {
-			oracle(run, id, res)
-			return
+			// a wall-clock watchdog on a shared machine: report only what a fresh run confirms
+			res2 := Execute(c)
+			if res2.SetupErr == nil && !res2.Hang {
+				run.Count("hang not reproduced (load)")
+				res = res2
+			} else {
+				oracle(run, id, res)
+				return
+			}
+		}
+		if c.PreTag >= 0 {
+			run.Count("destination reference pre-existing")
+		}
+		if c.MountAlways {
+			run.Count("blob root mounted into ReferencePusher/Tagger+Mounter")
 		}
 		if c.Mode == "x" || c.Mode == "X" {
 			run.Count("extended-copy")
